@@ -253,7 +253,7 @@ def gen_case(rng, pid, tier):
                    rng.choice([1, 4, 16, 64]) * 1024 ** 2)
             limits = []
             for t in rng.sample(TRAITS, rng.choice([0, 1, 1, 2, 2, 3])):
-                f = [rng.choice([0.2, 0.4, 0.6, 1.0]) for _ in range(3)]
+                f = [rng.choice([0.0, 0.2, 0.2, 0.4, 0.4, 0.6, 0.6, 1.0, 1.0]) for _ in range(3)]      # 0.0: a limit of zero
                 lv = (int(cap[0] * f[0]), int(cap[1] * f[1]) // 1024 * 1024, int(cap[2] * f[2]) // 1024 * 1024)
                 limits.append({'trait': t, 'cpu': spell_cpu(rng, lv[0], False),
                                'disk': spell_bytes(rng, lv[1], False, 'KMGT'),
@@ -433,6 +433,10 @@ def gen_case(rng, pid, tier):
                 rsrc[rng.choice(DIMS)] = rng.choice('19') * rng.choice([4299, 4300, 4301]) + rng.choice(['%', 'M', 'K'])
         if kind == 'check':
             ops.append(['check', cell, alloc, rsrc])
+        elif rng.random() < 0.05:
+            # the directory fails while the existing reservations are listed: the request must fail and
+            # leave nothing behind (it is not applied to the generator's shadow either)
+            ops.append([kind, rid, rsrc, 'listfault'])
         else:
             ops.append([kind, rid, rsrc])
             if rid == '%s/%s' % (alloc, cell):
@@ -462,6 +466,8 @@ class _FakeCellAlloc:
     def __init__(self, store, exc):
         self.store = store
         self.exc = exc
+        self.fail_list = False      # armed: the next list() fails as a lost directory connection does
+        self.fired = False
 
     def _out(self, key):
         obj = copy.deepcopy(self.store[key])
@@ -470,6 +476,10 @@ class _FakeCellAlloc:
         return obj
 
     def list(self, attrs):
+        if self.fail_list:
+            self.fail_list = False
+            self.fired = True
+            raise self.exc.AdminConnectionError('directory connection lost')
         out = []
         for key, r in self.store.items():
             if attrs.get('cell') is not None and r['cell'] != attrs['cell']:
@@ -775,7 +785,7 @@ def run_impl(case, pid):
                 rid = '%s/%s' % (alloc, cell)
                 slash = True
             else:
-                _, rid, rsrc = op
+                _, rid, rsrc = op[:3]
                 slash = '/' in rid
                 alloc, cell = rid.rsplit('/', 1) if slash else (None, None)
             # what is checked: the request; for update the reservation as it will be stored (the
@@ -801,6 +811,8 @@ def run_impl(case, pid):
                 before = mon.exceeded(cell)
             arg = copy.deepcopy(rsrc)
             exc = None
+            fake._ca.fail_list = kind != 'check' and len(op) > 3 and op[3] == 'listfault'      # pylint: disable=protected-access
+            fake._ca.fired = False                                                               # pylint: disable=protected-access
             try:
                 if kind == 'create':
                     api.reservation.create(rid, arg)
@@ -812,7 +824,18 @@ def run_impl(case, pid):
             except Exception as e:      # pylint: disable=broad-except
                 exc = e
                 outcome = classify(e, slash, mod)
+            fake._ca.fail_list = False                                                           # pylint: disable=protected-access
             run.tags.add('%s:%s' % (kind, outcome.split(':')[0] if not outcome.startswith('py:') else outcome))
+            if fake._ca.fired:                                                                    # pylint: disable=protected-access
+                # the listing failed: the request fails with the backend's error and the store is as it was
+                run.tags.add('list-fault')
+                run.op('faulted', ('ok' if outcome == 'ok' else 'err:' + outcome) + ' store=' + dump_store(store))
+                if outcome == 'ok' and slash and strs_ok:
+                    monitor(kind, cell, alloc, rsrc, outcome, exc, before, outcome != 'schema' and slash, mon_before)
+                elif outcome == 'ok':
+                    run.hits.append(fw.Hit(clause='accepted-without-listing', call_site=kind,
+                                           detail='%s accepted although the existing reservations could not be read' % rid))
+                continue
             if kind == 'check':
                 # the direct call has no schema in front: the monitor applies when the dict is one
                 # the update verb would admit (all members present and well-formed)
